@@ -58,8 +58,15 @@ class Repartition(Expr):
         ):
             new_partitions = self.operand("new_partitions")
             if isinstance(new_partitions, Callable):
-                return new_partitions(self.frame.npartitions)
-            return new_partitions
+                new_partitions = new_partitions(self.frame.npartitions)
+            if type(self) is not Repartition or (
+                new_partitions <= self.frame.npartitions
+                or not self.frame.known_divisions
+            ):
+                return new_partitions
+            # Increasing the partition count of a frame with known divisions
+            # interpolates new divisions, which can yield fewer partitions than
+            # requested (duplicate boundaries are dropped)
         return super().npartitions
 
     def _lower(self):
